@@ -131,16 +131,12 @@ def do_call(s, c):
     return getattr(s, m)(*args)
 
 
-def child_main(argv):
-    work, script_path, out_path = argv[1:4]
-    script = json.load(open(script_path))
-    os.chdir(work)
+def run_script(script, mk, seqno):
+    """execute one script (list of invocations) on the real _BobState in the current directory"""
     from bob.state import _BobState
-    mk = os.open("MARK", os.O_WRONLY | os.O_CREAT, 0o600)
     U = script["universe"]
     out = []
-    devnull = open(os.devnull, "w")
-    sys.stderr = devnull
+    os.write(mk, b"S %d\n" % seqno)
     for k, calls in enumerate(script["invocations"]):
         rec = {"calls": []}
         out.append(rec)
@@ -173,6 +169,53 @@ def child_main(argv):
             rec["fin"] = type(e).__name__
         os.write(mk, b"X %d\n" % k)
         s = None
+    return out
+
+
+def child_main(argv):
+    """argv: base directory, scripts file, output file, trace file, syscall list.  The process imports everything,
+    then lets strace attach to itself, so that only the state operations are traced."""
+    import subprocess
+    import time
+    import urllib.parse  # noqa (imported lazily by JenkinsConfig otherwise)
+    import re  # noqa
+    base, script_path, out_path, trace_path, syscalls = argv[1:6]
+    scripts = json.load(open(script_path))
+    import bob.state  # noqa
+    mkjc({"url": "http://warm/up", "options": {"shared.quota": "1G"}}).dump()
+    devnull = open(os.devnull, "w")
+    tracer = subprocess.Popen(["strace", "-f", "-p", str(os.getpid()), "-o", trace_path, "-xx", "-s", "300000",
+                               "-e", "trace=" + syscalls], stdout=devnull, stderr=subprocess.PIPE)
+    t0 = time.time()
+    while True:
+        st = open("/proc/self/status").read()
+        if int(st.split("TracerPid:")[1].split()[0]) != 0:
+            break
+        if tracer.poll() is not None or time.time() - t0 > 20:
+            sys.stdout.write("NOTRACE " + (tracer.stderr.read().decode("utf-8", "replace")[-300:] if tracer.poll() is not None else "timeout"))
+            try:
+                tracer.kill()
+            except Exception:
+                pass
+            sys.exit(3)
+        time.sleep(0.002)
+    time.sleep(0.02)
+    olderr = sys.stderr
+    sys.stderr = devnull
+    mk = os.open(os.path.join(base, "MARK"), os.O_WRONLY | os.O_CREAT, 0o600)
+    out = []
+    for n, script in enumerate(scripts):
+        work = os.path.join(base, "w%d" % n)
+        os.mkdir(work)
+        os.chdir(work)
+        out.append(run_script(script, mk, n))
+    os.write(mk, b"E\n")
+    sys.stderr = olderr
+    tracer.send_signal(2)
+    try:
+        tracer.wait(20)
+    except Exception:
+        tracer.kill()
     json.dump(out, open(out_path, "w"))
 
 
@@ -183,7 +226,7 @@ if __name__ == "__main__":
 
 
 def child_source():
-    return ("import ast, json, os, sys\n\n" + "\n\n".join(inspect.getsource(f) for f in (canon, mkjc, view, do_call, child_main))
+    return ("import ast, json, os, sys\n\n" + "\n\n".join(inspect.getsource(f) for f in (canon, mkjc, view, do_call, run_script, child_main))
             + CHILD_TAIL)
 
 
@@ -193,7 +236,7 @@ def child_source():
 def gen_value(r, big=False):
     k = r.randrange(5)
     if big:
-        return bytes(r.choice(b"abcdefgh") for _ in range(64)) * r.randrange(130, 400)
+        return bytes(r.choice(b"abcdefgh") for _ in range(64)) * r.randrange(130, 260)
     if k == 0:
         return r.choice([b"h1", b"h2", b"\x00\xff\x80", b""])
     if k == 1:
@@ -308,30 +351,35 @@ def strace_available():
         return False
 
 
-def run_child(tmp, repo, script, tag):
-    """run the script on the real _BobState under strace; returns (raw ops with segment labels, child record)"""
+def run_children(tmp, repo, scripts, tag):
+    """run the scripts on the real _BobState in one child process traced by strace;
+    returns [(raw ops with segment labels, child record)] per script"""
     base = os.path.join(tmp, "seq-%s" % tag)
-    work = os.path.join(base, "w")
-    os.makedirs(work)
+    os.makedirs(base)
     helper = os.path.join(tmp, "c10_child.py")
     if not os.path.exists(helper):
         with open(helper + ".%d" % os.getpid(), "w") as f:
             f.write(child_source())
         os.replace(helper + ".%d" % os.getpid(), helper)
     sp, op, tp = (os.path.join(base, n) for n in ("script.json", "out.json", "trace.txt"))
-    json.dump(script, open(sp, "w"))
-    cmd = ["strace", "-f", "-o", tp, "-xx", "-s", "4000000", "-e", "trace=" + SYSCALLS]
-    for n in list(NAMES) + ["MARK"]:
-        cmd += ["-P", n, "-P", os.path.join(os.path.realpath(work), n)]
-    cmd += [sys.executable, helper, work, sp, op]
+    json.dump(scripts, open(sp, "w"))
     env = dict(os.environ, PYTHONPATH=os.path.join(repo, "pym"), PYTHONDONTWRITEBYTECODE="1")
-    p = subprocess.run(cmd, stdout=subprocess.PIPE, stderr=subprocess.PIPE, env=env, timeout=300)
+    p = subprocess.run([sys.executable, helper, base, sp, op, tp, SYSCALLS], stdout=subprocess.PIPE, stderr=subprocess.PIPE,
+                       env=env, timeout=600)
     if p.returncode != 0 or not os.path.exists(op):
-        raise TraceError("child failed rc=%s: %s" % (p.returncode, p.stderr.decode("utf-8", "replace")[-800:]))
-    rec = json.load(open(op))
-    ops = parse_trace(open(tp).read())
+        raise TraceError("child failed rc=%s: %s %s" % (p.returncode, p.stdout.decode("utf-8", "replace")[-300:],
+                                                         p.stderr.decode("utf-8", "replace")[-600:]))
+    recs = json.load(open(op))
+    allops = parse_trace(open(tp).read())
     shutil.rmtree(base, ignore_errors=True)
-    return ops, rec
+    out = []
+    for n, rec in enumerate(recs):
+        out.append(([o for o in allops if o["seq"] == n], rec))
+    return out
+
+
+def run_child(tmp, repo, script, tag):
+    return run_children(tmp, repo, [script], tag)[0]
 
 
 def parse_trace(text):
@@ -340,6 +388,10 @@ def parse_trace(text):
     fds = {}
     main = None
     seg = None
+    seq = None
+    done = False
+    fdid = {}
+    nopen = 0
     for line in text.splitlines():
         m = LINE.match(line)
         if not m:
@@ -351,7 +403,7 @@ def parse_trace(text):
         strs = [_unhex(s).decode("utf-8", "surrogateescape") for s, _ in strs]
         ok = ret not in ("?",) and int(ret) >= 0
         if main is None:
-            if sc == "openat" and strs and strs[0] == "MARK" and ok:
+            if sc == "openat" and strs and os.path.basename(strs[0]) == "MARK" and ok:
                 main = pid
                 fds[int(ret)] = "MARK"
             continue
@@ -360,34 +412,41 @@ def parse_trace(text):
         name = NAMES.get(os.path.basename(strs[0])) if strs else None
 
         def add(o, n, **kw):
-            d = {"o": o, "n": n, "seg": seg}
+            d = {"o": o, "n": n, "seg": seg, "seq": seq}
             d.update(kw)
             ops.append(d)
         if sc in ("openat", "open", "creat"):
             path = strs[0]
             if ok:
+                nopen += 1
                 fds[int(ret)] = path
+                fdid[int(ret)] = nopen
             if name is None:
                 continue
             flags = args
             if "O_EXCL" in flags and "O_CREAT" in flags:
-                add("createExcl", name, failed=not ok)
+                add("createExcl", name, failed=not ok, fd=nopen)
             elif "O_CREAT" in flags and not ok:
                 add("create", name, failed=True)
             elif "O_TRUNC" in flags or sc == "creat":
-                add("openTrunc", name, failed=not ok)
+                add("openTrunc", name, failed=not ok, fd=nopen)
             elif "O_CREAT" in flags:
-                add("create", name, failed=not ok)
-            elif "O_WRONLY" in flags and ok:
-                add("openWrite", name)
-            # O_RDONLY / O_RDWR opens have no effect of their own
+                add("create", name, failed=not ok, fd=nopen)
+            elif ok:
+                # plain open: no effect of its own, binds the descriptor to the file the name denotes now
+                add("open", name, fd=nopen)
         elif sc in ("write", "pwrite64", "writev"):
             fd = int(args.split(",", 1)[0])
             path = fds.get(fd)
             if path == "MARK":
                 t = strs[0].split()
-                seg = {"I": lambda: ("I", int(t[1])), "C": lambda: ("C", int(t[1]), int(t[2])), "F": lambda: ("F", int(t[1])),
-                       "V": lambda: None, "X": lambda: None}[t[0]]()
+                if t[0] == "S":
+                    seq, seg = int(t[1]), None
+                elif t[0] == "E":
+                    done = True
+                else:
+                    seg = {"I": lambda: ("I", int(t[1])), "C": lambda: ("C", int(t[1]), int(t[2])), "F": lambda: ("F", int(t[1])),
+                           "V": lambda: None, "X": lambda: None}[t[0]]()
                 continue
             n = NAMES.get(os.path.basename(path or ""))
             if n is None:
@@ -396,7 +455,7 @@ def parse_trace(text):
                 add("unmodelled:" + sc, n)
                 continue
             data = _unhex(STR.search(args).group(1))[:max(int(ret), 0)] if ok else b""
-            add("write", n, data=data, failed=not ok)
+            add("write", n, data=data, failed=not ok, fd=fdid.get(fd))
         elif sc == "read":
             fd = int(args.split(",", 1)[0])
             n = NAMES.get(os.path.basename(fds.get(fd) or ""))
@@ -406,7 +465,7 @@ def parse_trace(text):
             fd = int(args.split(",", 1)[0])
             n = NAMES.get(os.path.basename(fds.get(fd) or ""))
             if n is not None:
-                add("fsync", n, failed=not ok)
+                add("fsync", n, failed=not ok, fd=fdid.get(fd))
         elif sc == "close":
             fds.pop(int(args.split(",", 1)[0]), None)
         elif sc in ("rename", "renameat", "renameat2"):
@@ -421,32 +480,53 @@ def parse_trace(text):
             add("unmodelled:" + sc, name or (strs[0] if strs else "?"))
     if main is None:
         raise TraceError("marker file never opened")
+    if not done:
+        raise TraceError("end marker missing in the trace")
     return ops
 
 
 # ---------------------------------------------------------------------------------------------
 # this file's own POSIX bookkeeping (independent of the Lean model): directory image after a trace prefix
 
-def fs_apply(fs, op):
-    """fs: name -> [bytes, synced]"""
-    if op.get("failed"):
-        return
-    o, n = op["o"], op["n"]
-    if o == "createExcl" or o == "create":
-        fs.setdefault(n, [b"", False])
-    elif o == "openTrunc":
-        fs[n] = [b"", False]
-    elif o == "write":
-        if n in fs:
-            fs[n] = [fs[n][0] + op["data"], False]
-    elif o == "fsync":
-        if n in fs:
-            fs[n][1] = True
-    elif o == "rename":
-        if n in fs and n != op["to"]:
-            fs[op["to"]] = fs.pop(n)
-    elif o == "unlink":
-        fs.pop(n, None)
+class SimFS:
+    """directory image after a trace prefix: names -> file objects [content, synced]; descriptors keep denoting the
+    file they were opened on, whatever happens to its name afterwards"""
+    def __init__(self):
+        self.names = {}
+        self.fds = {}
+
+    def apply(self, op):
+        if op.get("failed"):
+            return
+        o, n, fs = op["o"], op["n"], self.names
+        if o in ("createExcl", "create"):
+            fs.setdefault(n, [b"", False])
+            self.fds[op.get("fd")] = fs[n]
+        elif o == "openTrunc":
+            if n in fs:
+                fs[n][0], fs[n][1] = b"", False
+            else:
+                fs[n] = [b"", False]
+            self.fds[op.get("fd")] = fs[n]
+        elif o == "open":
+            if n in fs:
+                self.fds[op.get("fd")] = fs[n]
+        elif o == "write":
+            f = self.fds.get(op.get("fd"))
+            if f is not None:
+                f[0], f[1] = f[0] + op["data"], False
+        elif o == "fsync":
+            f = self.fds.get(op.get("fd"))
+            if f is not None:
+                f[1] = True
+        elif o == "rename":
+            if n in fs and n != op["to"]:
+                fs[op["to"]] = fs.pop(n)
+        elif o == "unlink":
+            fs.pop(n, None)
+
+    def items(self):
+        return [(n, (f[0], f[1])) for n, f in self.names.items()]
 
 
 def my_verify(d):
@@ -458,15 +538,16 @@ def garblings(r, data, thorough):
     """(label, garbled content) for one unsynced content"""
     n = len(data)
     out = []
-    lens = set([0, 1, 3, 4, 5, n // 2, max(n - 5, 0), max(n - 4, 0), max(n - 1, 0)])
+    lens = set([0, 3, n // 2, max(n - 1, 0)])
     if thorough:
-        lens |= set(range(0, n, max(1, n // 64)))
+        lens |= set([1, 2, 4, 5, max(n - 5, 0), max(n - 4, 0)]) | set(range(0, n, max(1, n // 24)))
     for l in sorted(x for x in lens if x < n):
         out.append(("trunc%d" % l, data[:l]))
     if n:
         out.append(("zeros", bytes(n)))
-        out.append(("tailzeros", data[:n // 2] + bytes(n - n // 2)))
-        for _ in range(64 if thorough else 3):
+        if thorough:
+            out.append(("tailzeros", data[:n // 2] + bytes(n - n // 2)))
+        for _ in range(16 if thorough else 1):
             i, b = r.randrange(n), 1 << r.randrange(8)
             out.append(("flip%d.%d" % (i, b), data[:i] + bytes([data[i] ^ b]) + data[i + 1:]))
         out.append(("trailerflip", data[:-1] + bytes([data[-1] ^ 0x10])))
@@ -490,18 +571,43 @@ def fresh_start(workdir, image, U, keep_lock=False):
     os.chdir(workdir)
     olderr = sys.stderr
     sys.stderr = open(os.devnull, "w")
+    # durability of the scratch image is irrelevant for what the fresh start loads: fsync is a no-op in
+    # this (harness) process only; the traced child always runs with the real fsync
+    real_fsync = os.fsync
+    os.fsync = lambda fd: None
+    # a garbled pickle (only reachable when the implementation accepts one) may ask for absurd amounts of memory or time
+    import resource
+    import signal
+    soft, hard = resource.getrlimit(resource.RLIMIT_AS)
+    lim = 6 << 30
+    resource.setrlimit(resource.RLIMIT_AS, (lim if hard == resource.RLIM_INFINITY else min(lim, hard), hard))
+
+    def _timeout(sig, frm):
+        raise TimeoutError("fresh start took more than 30 s")
+    oldh = signal.signal(signal.SIGALRM, _timeout)
+    signal.alarm(30)
     try:
         try:
             s = _BobState()
         except BaseException as e:
             return ("error:" + type(e).__name__ + ":" + str(getattr(e, "slogan", e))[:80], None, listing(workdir))
         try:
-            v = view(s, U)
+            try:
+                v = view(s, U)
+            except BaseException as e:
+                return ("error:getters:" + type(e).__name__ + ":" + str(e)[:80], None, listing(workdir))
             files_after_init = listing(workdir)
         finally:
-            s.finalize()
+            try:
+                s.finalize()
+            except BaseException:
+                pass
         return ("ok", v, files_after_init)
     finally:
+        signal.alarm(0)
+        signal.signal(signal.SIGALRM, oldh)
+        resource.setrlimit(resource.RLIMIT_AS, (soft, hard))
+        os.fsync = real_fsync
         sys.stderr.close()
         sys.stderr = olderr
         os.chdir(cwd)
@@ -520,84 +626,121 @@ def empty_view(workdir, U):
 
 
 def seq_structure(ops, rec):
-    """per raw op index bookkeeping of the snapshots (views) involved:
-    returns list `durable[k]` = (base_view, [views saved since], latest_view) valid after k ops were applied"""
-    # segment boundaries
-    n = len(ops)
-    events = []   # (op index after which it holds, kind, payload)
+    """protocol independent bookkeeping from the child's own records: which API call touched the file system
+    between which raw op indexes, where invocations start and end.
+    events: (index, kind, payload) sorted by index; an event holds once `index` ops were applied
+       ("start", inv)            first op of the invocation is applied
+       ("begin", inv, call)      first effectful op of an API call is applied: its final state may be recovered
+       ("done", inv, call)       all ops of the call are applied: its final state must not be lost by a mere kill
+       ("end", inv)              finalize removed the lock: the invocation completed"""
+    events = []
+    first, last = {}, {}
+    started = set()
     for idx, op in enumerate(ops):
         seg = op["seg"]
-        if op.get("failed") or seg is None:
+        if seg is None:
             continue
-        if op["o"] == "rename" and op["n"] == "dirty" and op["to"] == "new" and seg[0] == "C":
-            events.append((idx + 1, "saved", seg))
+        seg = tuple(seg)
+        if seg[1] not in started:
+            started.add(seg[1])
+            events.append((idx + 1, "start", seg[1]))
+        if op.get("failed") or op["o"] in ("stat", "read", "open"):
+            continue
+        if seg[0] == "C":
+            first.setdefault(seg, idx)
+            last[seg] = idx
         if op["o"] == "unlink" and op["n"] == "lock" and seg[0] == "F":
-            events.append((idx + 1, "end", seg))
+            events.append((idx + 1, "end", seg[1]))
+    for seg, idx in first.items():
+        events.append((idx + 1, "begin", seg[1:]))
+        events.append((last[seg] + 1, "done", seg[1:]))
+    order = {"start": 0, "begin": 1, "done": 2, "end": 3}
+    events.sort(key=lambda e: (e[0], order[e[1]]))
     return events
 
 
 def admissible_at(k, events, rec, empty):
-    """(base view, views saved since, latest durable view) after the first k raw ops, from the child's own records"""
-    base, since, last = empty, [], empty
-    cur_inv = None
-    for at, kind, seg in events:
+    """after the first k raw ops: (state at the end of the last completed invocation, states saved since incl. one being
+    saved, newest state whose save completed, state whose save is in progress or None)"""
+    base, since, last, progress = empty, [], empty, None
+    for at, kind, who in events:
         if at > k:
             break
-        inv = seg[1]
-        if cur_inv != inv:
-            # a new invocation started: its durable view is what it loaded
-            cur_inv = inv
-            last = rec[inv].get("view0", last)
-        if kind == "saved":
-            v = rec[inv]["calls"][seg[2]]["view"]
-            since.append(v)
-            last = v
+        if kind == "start":
+            if rec[who].get("init") == "ok":
+                last = rec[who]["view0"]
+        elif kind == "begin":
+            progress = rec[who[0]]["calls"][who[1]]["view"]
+            since.append(progress)
+        elif kind == "done":
+            last, progress = rec[who[0]]["calls"][who[1]]["view"], None
         else:
-            base, since = last, []
-    return base, since, last
+            base, since, progress = last, [], None
+    return base, since, last, progress
 
 
 def crash_worker(job):
+    """one batch of sequences: trace them in one child, then replay all crash images of each"""
+    tmp, repo, items, btag, thorough, budget_images, want_images = job
+    try:
+        traced = run_children(tmp, repo, [it[0] for it in items], btag)
+    except (TraceError, subprocess.TimeoutExpired) as e:
+        return [{"viol": [], "cases": 0, "nontrivial": 0, "hist": {}, "images": [], "traceops": 0,
+                 "skip": "strace run failed: %s" % str(e)[:300]} for _ in items]
+    return [crash_images(tmp, script, tag, seed, thorough, budget_images, want_images, ops, rec)
+            for (script, tag, seed), (ops, rec) in zip(items, traced)]
+
+
+def crash_images(tmp, script, tag, seed, thorough, budget_images, want_images, ops, rec):
     """all crash images of one sequence; returns {"viol": [...], "cases": n, "hist": {...}, "images": [...]}"""
     import random
-    tmp, repo, script, tag, seed, thorough, budget_images, want_images = job
     res = {"viol": [], "cases": 0, "nontrivial": 0, "hist": {}, "images": [], "skip": None, "traceops": 0}
 
     def count(h, k, n=1):
         res["hist"].setdefault(h, {})
         res["hist"][h][k] = res["hist"][h].get(k, 0) + n
-    try:
-        ops, rec = run_child(tmp, repo, script, tag)
-    except TraceError as e:
-        res["skip"] = "strace run failed: %s" % str(e)[:200]
-        return res
     res["ops"], res["rec"] = ops, rec
     res["traceops"] = len(ops)
+
+    class _Viol(list):
+        """at most 3 reports per failure signature and sequence"""
+        def append(self, v):
+            if sum(1 for x in self if x["signature"] == v["signature"]) < 3:
+                list.append(self, v)
+    res["viol"] = _Viol()
     r = random.Random(seed)
     work = os.path.join(tmp, "img-%s" % tag)
     os.makedirs(work, exist_ok=True)
     U = script["universe"]
     empty = empty_view(work, U)
     events = seq_structure(ops, rec)
-    # unsaved-mutation check: what a completed invocation leaves on disk is what its getters showed at the end
-    for at, kind, seg in events:
+    # no-crash persistence: a completed invocation leaves on disk what its getters showed at the end, and the next
+    # invocation loads exactly that
+    for at, kind, who in events:
         if kind == "end":
-            inv = rec[seg[1]]
+            inv = rec[who]
             endview = inv["calls"][-1]["view"] if inv["calls"] else inv.get("view0")
-            _, _, last = admissible_at(at - 1, events, rec, empty)
-            if endview != last:
-                res["viol"].append({"what": "invocation %d completed but its final in-memory state was never saved" % seg[1],
+            if endview != admissible_at(at - 1, events, rec, empty)[2]:
+                res["viol"].append({"what": "invocation %d completed but its final in-memory state differs from the last state it "
+                                            "wrote to the file system" % who,
                                     "case": {"kind": "crash", "script": script, "prefix": at, "garble": "intact"},
                                     "signature": "unsaved-mutation-at-finalize"})
-    fs = {}
+        if kind == "start" and rec[who].get("init") == "ok":
+            before = admissible_at(at - 1, events, rec, empty)[2]
+            if rec[who]["view0"] != before:
+                res["viol"].append({"what": "invocation %d loaded a state different from the one saved before it started" % who,
+                                    "case": {"kind": "crash", "script": script, "prefix": at - 1, "garble": "intact"},
+                                    "signature": "restart-loads-different-state"})
+    fs = SimFS()
     prefixes = list(range(len(ops) + 1))
     images_done = 0
+    seen_images = 0
     for k in prefixes:
         if k > 0:
-            fs_apply(fs, ops[k - 1])
-        if k > 0 and ops[k - 1]["o"] in ("stat", "read"):
+            fs.apply(ops[k - 1])
+        if k > 0 and ops[k - 1]["o"] in ("stat", "read", "open"):
             continue    # nothing changed since the previous prefix
-        base, since, last = admissible_at(k, events, rec, empty)
+        base, since, last, progress = admissible_at(k, events, rec, empty)
         unsynced = {n: c for n, (c, s) in fs.items() if not s and n != "lock"}
         variants = [("intact", {})]
         if unsynced and images_done < budget_images:
@@ -612,7 +755,7 @@ def crash_worker(job):
             for n, (gl, gc) in gar.items():
                 image[n] = gc
                 desc[n] = gl
-                if n == "new" and gc != fs[n][0] and my_verify(gc):
+                if n == "new" and gc != fs.names[n][0] and my_verify(gc):
                     detectable = False
             if not detectable:
                 count("garbling", "undetectable-skipped")
@@ -630,7 +773,7 @@ def crash_worker(job):
                 res["viol"].append({"what": "after a crash at trace prefix %d (%s) the next start fails: %s" % (k, desc or "intact", outcome),
                                     "case": case, "signature": "start-fails-after-crash"})
                 continue
-            if v == last:
+            if v == last or (progress is not None and v == progress):
                 count("outcome", "latest")
             elif v == base:
                 count("outcome", "base")
@@ -642,14 +785,21 @@ def crash_worker(job):
                                             % (k, desc or "intact", 1 + len(since)),
                                     "case": case, "signature": "recovered-state-not-admissible"})
                 continue
-            if not gar and v != last:
+            if not gar and v != last and not (progress is not None and v == progress):
                 res["viol"].append({"what": "process kill at trace prefix %d (nothing garbled) lost the newest saved snapshot" % k,
                                     "case": case, "signature": "intact-image-not-latest"})
-            if want_images and len(res["images"]) < want_images and (gar or r.random() < 0.3):
-                res["images"].append({"prefix": k, "fs": {n: [c.hex(), s] for n, (c, s) in fs.items()},
-                                      "garble": {n: gc.hex() for n, (gl, gc) in gar.items()},
-                                      "view": v, "after": {n: c.hex() for n, c in after.items()}})
+            if want_images and sum(len(c) for c in image.values()) < 20000:
+                # reservoir sample of images for the model-vs-implementation recovery comparison
+                seen_images += 1
+                img = {"prefix": k, "fs": {n: [c.hex(), s] for n, (c, s) in fs.items()},
+                       "garble": {n: gc.hex() for n, (gl, gc) in gar.items()},
+                       "after": {n: c.hex() for n, c in after.items()}}
+                if len(res["images"]) < want_images:
+                    res["images"].append(img)
+                elif r.randrange(seen_images) < want_images:
+                    res["images"][r.randrange(want_images)] = img
     shutil.rmtree(work, ignore_errors=True)
+    res["viol"] = list(res["viol"])
     return res
 
 
@@ -680,8 +830,11 @@ def _race_worker(args):
         return type(e).__name__
     # the winner keeps the workspace until every competitor has had its try
     wait("done-", n - 1, 10)
-    s.setInputHashes("p%d" % i, b"h")
-    s.finalize()
+    try:
+        s.setInputHashes("p%d" % i, b"h")
+        s.finalize()
+    except BaseException:
+        pass    # several winners trample on each other's files
     return "ok"
 
 
@@ -694,9 +847,11 @@ def lock_oracle(ctx):
     cwd = os.getcwd()
     olderr = sys.stderr
     sys.stderr = open(os.devnull, "w")
+    real_fsync = os.fsync
+    os.fsync = lambda fd: None      # harness process only, see fresh_start
     try:
-        for i in range(ctx.scale(120, 1500)):
-            if ctx.out_of_time():
+        for i in range(ctx.scale(100, 1500)):
+            if ctx.time_left() < ctx.budget * 0.3:
                 break
             for f in os.listdir(work):
                 os.unlink(os.path.join(work, f))
@@ -755,8 +910,8 @@ def lock_oracle(ctx):
         os.chdir(cwd)
         # racing processes: exactly one wins
         import time
-        for i in range(ctx.scale(6, 40)):
-            if ctx.out_of_time():
+        for i in range(ctx.scale(4, 40)):
+            if ctx.time_left() < ctx.budget * 0.25:
                 break
             for f in os.listdir(work):
                 os.unlink(os.path.join(work, f))
@@ -770,6 +925,7 @@ def lock_oracle(ctx):
                 ctx.violation("%d of 6 instances started at the same time got the workspace: %r" % (out.count("ok"), out),
                               {"kind": "race", "n": 6}, "second-instance-not-refused")
     finally:
+        os.fsync = real_fsync
         sys.stderr.close()
         sys.stderr = olderr
         os.chdir(cwd)
@@ -778,14 +934,13 @@ def lock_oracle(ctx):
 # ---------------------------------------------------------------------------------------------
 # oracle / correspondence drivers
 
-def _jobs(ctx, n, tag, want_images=0):
+def _jobs(ctx, n, tag, want_images=0, batch=2):
     jobs = []
-    per_seq = ctx.scale(70, 600)
-    for i in range(n):
-        r = ctx.subrng(tag, i)
-        script = gen_script(r)
-        jobs.append((ctx.tmp, ctx.repo, script, "%s%d" % (tag, i), "%s-%d-%s-%d" % (ctx.prop, ctx.seed, tag, i),
-                     ctx.tier == "thorough", per_seq * 40, want_images))
+    for b in range(0, n, batch):
+        items = []
+        for i in range(b, min(n, b + batch)):
+            items.append((gen_script(ctx.subrng(tag, i)), "%s%d" % (tag, i), "%s-%d-%s-%d" % (ctx.prop, ctx.seed, tag, i)))
+        jobs.append((ctx.tmp, ctx.repo, items, "%s%d" % (tag, b), ctx.tier == "thorough", ctx.scale(4000, 100000), want_images))
     return jobs
 
 
@@ -804,16 +959,26 @@ def _sequences(ctx):
         ctx.skip("strace unavailable: no syscall traces, crash-image replay and trace correspondence not run")
         _CACHE["seq"] = []
         return []
-    n = ctx.scale(150, 5000)
+    n = ctx.scale(150, 1200)
     out = []
     # in chunks so that the time budget can stop the stream
     jobs = _jobs(ctx, n, "s", want_images=12)
-    chunk = 48
-    for i in range(0, len(jobs), chunk):
-        if ctx.time_left() < ctx.budget * 0.35:
-            ctx.notes["sequences_cut_by_budget"] = i
+    import time
+    t0 = time.time()
+    # rounds sized by the measured rate so that the stream stops at half of the time budget whatever the machine load
+    i, chunk = 0, 8
+    while i < len(jobs):
+        left = ctx.time_left() - ctx.budget * 0.5
+        if i and left < (time.time() - t0) / i * min(chunk, 4):
+            ctx.notes["sequences_cut_by_budget"] = sum(len(j[2]) for j in jobs[:i])
             break
-        out += ctx.parallel(crash_worker, jobs[i:i + chunk])
+        for batch in ctx.parallel(crash_worker, jobs[i:i + chunk]):
+            out += batch
+        i += chunk
+        rate = (time.time() - t0) / i
+        chunk = max(4, min(64, int((ctx.time_left() - ctx.budget * 0.5) / max(rate, 1e-3) * 0.8)))
+    ctx.notes["t_sequences_s"] = round(time.time() - t0, 1)
+    ctx.notes["sequences"] = len(out)
     _CACHE["seq"] = out
     return out
 
@@ -873,13 +1038,18 @@ def oracle(ctx):
                 ctx.count(h, k, v)
         for v in res["viol"]:
             ctx.violation(v["what"], v["case"], v["signature"])
+    import time
+    t0 = time.time()
     for label, g, committed, outcome in verify_cases(ctx):
         ctx.case(("verify-impl", g[:64], len(g)))
         if my_verify(g) != committed:
             ctx.violation("a fresh start %s an uncommitted file whose Adler-32 trailer %s (%s)" %
                           ("commits" if committed else "discards", "mismatches" if committed else "matches", label),
                           {"kind": "verify", "hex": g.hex()}, "verify-decision-wrong")
+    ctx.notes["t_verify_s"] = round(time.time() - t0, 1)
+    t0 = time.time()
     lock_oracle(ctx)
+    ctx.notes["t_lock_s"] = round(time.time() - t0, 1)
 
 
 def _script_of(ctx, i):
@@ -891,6 +1061,8 @@ def norm_ops(ops):
     out = []
     for op in ops:
         o = op["o"]
+        if o == "open":
+            continue
         if op.get("failed") and o != "createExcl":
             out.append({"o": o + ":failed", "n": op["n"]})
             continue
@@ -978,6 +1150,15 @@ def _consts_keys(ctx):
 
 
 def correspond(ctx):
+    import time
+    t0 = time.time()
+    try:
+        _correspond(ctx)
+    finally:
+        ctx.notes["t_correspond_s"] = round(time.time() - t0, 1)
+
+
+def _correspond(ctx):
     seqs = _sequences(ctx)
     live = [(i, s) for i, s in enumerate(seqs) if not s["skip"] and "ops" in s]
     if not live:
@@ -1069,6 +1250,9 @@ def correspond(ctx):
     # ---- R3: recover + init of the model on real crash images
     import pickle
     rreqs, rwant, rcase = [], [], []
+    if ctx.time_left() < 5:
+        ctx.skip("correspondence R3/R4 (recovery of crash images, version window): out of time")
+        return
     for i, s in live:
         table, views = [], []
         # every distinct content ever written with its decoded view comes from the images themselves
@@ -1144,10 +1328,10 @@ def replay(ctx, case):
         U = script["universe"]
         empty = empty_view(work, U)
         events = seq_structure(ops, rec)
-        fs = {}
+        fs = SimFS()
         for op in ops[:case["prefix"]]:
-            fs_apply(fs, op)
-        base, since, last = admissible_at(case["prefix"], events, rec, empty)
+            fs.apply(op)
+        base, since, last, progress = admissible_at(case["prefix"], events, rec, empty)
         image = {n: c for n, (c, s) in fs.items()}
         if isinstance(case.get("image"), dict):
             for n, h in case["image"].items():
@@ -1160,14 +1344,17 @@ def replay(ctx, case):
             ctx.violation("the next start fails: " + outcome, case, "start-fails-after-crash")
         elif not (v == base or v == last or any(v == x for x in since)):
             ctx.violation("loaded state is not an admissible snapshot", case, "recovered-state-not-admissible")
-        elif case.get("garble") == "intact" and v != last:
+        elif case.get("garble") == "intact" and v != last and v != progress:
             ctx.violation("newest saved snapshot lost without garbling", case, "intact-image-not-latest")
-        for at, kind, seg in events:
+        for at, kind, who in events:
             if kind == "end" and at == case["prefix"]:
-                inv = rec[seg[1]]
+                inv = rec[who]
                 endview = inv["calls"][-1]["view"] if inv["calls"] else inv.get("view0")
                 if endview != admissible_at(at - 1, events, rec, empty)[2]:
                     ctx.violation("final in-memory state never saved", case, "unsaved-mutation-at-finalize")
+            if kind == "start" and at - 1 == case["prefix"] and rec[who].get("init") == "ok" and \
+                    rec[who]["view0"] != admissible_at(at - 1, events, rec, empty)[2]:
+                ctx.violation("restart loads a different state", case, "restart-loads-different-state")
     elif k == "verify":
         work = os.path.join(ctx.tmp, "replay-verify")
         os.makedirs(work, exist_ok=True)
